@@ -52,6 +52,9 @@ def main():
                     ctx.violations, ctx.vio_index, ctx.vio_total = [], {}, 0     # refused calls may trip contracts; not judged here
                     history.fault_stir(ctx)
                     ctx.violations, ctx.vio_index, ctx.vio_total = saved
+                    flipped = ctx.extra.pop("fault_prelude_flipped", [])
+                    ctx.check("fault-prelude: a call the library refused is refused again when it is repeated at once", not flipped,
+                              {"calls": flipped[:4]}, "refused both times", flipped[:2], mechanism="refusal-flipped")
                 if shard.get("before_history"):
                     from rv import history
                     history.stir(ctx)           # unrelated calls come first: the workload meets warm, foreign state
